@@ -117,7 +117,7 @@ impl Scenario for EciesNet {
         }
     }
 
-    fn generate(&self, rng: &mut Rng, tier: Tier) -> Plan {
+    fn generate(&self, rng: &mut Rng, tier: Tier, _index: u64) -> Plan {
         let keys: Vec<String> = (0..3).map(|_| gen_key(rng)).collect();
         let mut events = vec![];
         let n_send = rng.range(1, 2);
